@@ -221,6 +221,35 @@ def st_process(spec):
         if t.is_legacy_equivalent() != (nm in legacy_names):
             bad("C15.legacy-equivalent", f"is_legacy_equivalent()={t.is_legacy_equivalent()} for {nm[:120]}")
     stats["sampled_tokenizers"] = len(sample)
+    # ---- history: a tokenizer's identity must not depend on whether it (or an element instance it shares with others) has
+    #      been *used*; "equal tokenizers have equal names and hashes", "saving then loading returns ... the same name"
+    from maze_dataset import SolvedMaze
+
+    conn = np.zeros((2, 3, 3), dtype=np.bool_)
+    conn[1, 0, 0] = conn[1, 0, 1] = conn[0, 0, 2] = conn[0, 1, 2] = conn[1, 1, 0] = conn[1, 1, 1] = conn[0, 1, 0] = conn[1, 2, 0] = True
+    maze = SolvedMaze(connection_list=conn, solution=np.array([[0, 0], [0, 1], [0, 2], [1, 2], [2, 2]]))
+    ident_before = [(t.name, hash(t)) for t in sample]
+    used = sample[:: max(1, len(sample) // 150)]
+    n_used = 0
+    for t in used:
+        try:
+            toks = maze.as_tokens(t)
+            t.coords_to_strings([(0, 0), (1, 2)])
+            n_used += 1
+        except Exception:  # noqa: BLE001 - whether every tokenizer can render this maze is not C15's business
+            continue
+    ident_after = [(t.name, hash(t)) for t in sample]
+    changed = [i for i, (a, b) in enumerate(zip(ident_before, ident_after)) if a != b]
+    if changed:
+        i = changed[0]
+        bad("C15.identity-stable-under-use", f"{len(changed)} of {len(sample)} sampled tokenizers changed name or hash after {n_used} of them tokenized a maze: {ident_before[i][0][:100]} -> {ident_after[i][0][:140]}")
+    for t, (nm0, h0) in list(zip(sample, ident_before))[:: max(1, len(sample) // 150)]:
+        t2 = MazeTokenizerModular.load(json.loads(json.dumps(t.serialize())))
+        if t2.name != nm0 or hash(t2) != h0 or not (t2 == t):
+            bad("C15.save-load", f"after use, serialize/load no longer returns an equal tokenizer with the original name: {nm0[:120]}")
+            break
+    events.append(["used", n_used, len(changed)])
+    stats["tokenizers_used_then_reidentified"] = n_used
     # ---- every single-element neighbour of every legacy image (exhaustive at distance 1): "... and no other tokenizer does" ----
     n_nb = 0
     nb_true = 0
